@@ -455,6 +455,10 @@ type apiOp struct {
 	Seq  uint16   `json:"seq,omitempty"`
 	TS   uint32   `json:"ts,omitempty"`
 	NTP  uint64   `json:"ntp,omitempty"`
+	// Grp != 0: consecutive "sr" ops with the same Grp travel in ONE compound RTCP packet (in this
+	// order, mixed with receiver reports / PLIs); every SR of the compound that names a bound
+	// stream must be processed, so the Coq case lists them as individual CRASr ops
+	Grp  int      `json:"grp,omitempty"`
 	Reps []apiRep `json:"reps,omitempty"`
 }
 
@@ -555,10 +559,27 @@ func runAPI(c *apiCase) error {
 				}
 			}
 		case "sr":
+			if op.Grp != 0 && i > 0 && c.Ops[i-1].K == "sr" && c.Ops[i-1].Grp == op.Grp {
+				continue // delivered with the first SR of its compound
+			}
 			nowNs.Store(op.Now)
-			pkts := []rtcp.Packet{&rtcp.SenderReport{SSRC: op.SSRC, NTPTime: op.NTP, RTPTime: 1, PacketCount: 2, OctetCount: 3}}
-			if op.NTP&1 == 1 { // compound with something else in front
-				pkts = append([]rtcp.Packet{&rtcp.ReceiverReport{SSRC: 99}}, pkts...)
+			var pkts []rtcp.Packet
+			if op.Grp == 0 {
+				pkts = []rtcp.Packet{&rtcp.SenderReport{SSRC: op.SSRC, NTPTime: op.NTP, RTPTime: 1, PacketCount: 2, OctetCount: 3}}
+				if op.NTP&1 == 1 { // compound with something else in front
+					pkts = append([]rtcp.Packet{&rtcp.ReceiverReport{SSRC: 99}}, pkts...)
+				}
+			} else {
+				for k := i; k < len(c.Ops) && c.Ops[k].K == "sr" && c.Ops[k].Grp == op.Grp; k++ {
+					o2 := &c.Ops[k]
+					switch (o2.NTP >> 1) % 3 { // other packets in between
+					case 0:
+						pkts = append(pkts, &rtcp.ReceiverReport{SSRC: 99})
+					case 1:
+						pkts = append(pkts, &rtcp.PictureLossIndication{SenderSSRC: 5, MediaSSRC: o2.SSRC})
+					}
+					pkts = append(pkts, &rtcp.SenderReport{SSRC: o2.SSRC, NTPTime: o2.NTP, RTPTime: 1, PacketCount: 2, OctetCount: 3})
+				}
 			}
 			raw, err := rtcp.Marshal(pkts)
 			if err != nil {
@@ -643,6 +664,7 @@ func genAPI(r *rand.Rand) (*apiCase, []string) {
 	}
 	sts := make([]st, ns)
 	now := recent + r.Int63n(1000000)*ms
+	grp := 0
 	if r.Intn(8) == 0 {
 		c.Ops = append(c.Ops, apiOp{K: "tick", Now: now})
 		b = append(b, "tick-no-streams")
@@ -680,6 +702,35 @@ func genAPI(r *rand.Rand) (*apiCase, []string) {
 			if r.Intn(6) == 0 {
 				ss = 4242 // an SSRC that is not bound
 				b = append(b, "sr-unknown-ssrc")
+			}
+			if r.Intn(3) == 0 {
+				// one compound RTCP packet with 2-3 SRs: usually an SSRC that is not bound first,
+				// then bound streams (possibly the same stream twice: the later SR wins)
+				grp++
+				var list []uint32
+				if r.Intn(4) != 0 {
+					u := uint32(4242)
+					for q := range sts {
+						if !sts[q].bound && r.Intn(2) == 0 {
+							u = ssrcs[q]
+						}
+					}
+					list = append(list, u)
+					b = append(b, "sr-compound-unbound-first")
+				}
+				list = append(list, ssrcs[k])
+				if r.Intn(2) == 0 {
+					list = append(list, ssrcs[r.Intn(ns)])
+				}
+				if len(list) < 2 {
+					list = append(list, 4243)
+				}
+				for _, x := range list {
+					c.Ops = append(c.Ops, apiOp{K: "sr", SSRC: x, Now: now, NTP: srNTP(r), Grp: grp})
+				}
+				b = append(b, "sr-compound")
+
+				break
 			}
 			c.Ops = append(c.Ops, apiOp{K: "sr", SSRC: ss, Now: now, NTP: srNTP(r)})
 		default:
